@@ -687,3 +687,128 @@ func drainBoundedByShrinkingLen(fn *ssa.Function) []ssa.Instruction {
 	}
 	return out
 }
+
+// unguardedDecimalDivision: a decimal division (panics on a zero divisor) whose divisor is built from
+// a run-time value v is reached only behind a test that v is not zero (v != 0, v > 0, v.Sign() != 0,
+// or the zero edge of v == 0 / v.Sign() == 0 leaving). Constants are not constrained.
+type divSite struct {
+	Call *ssa.Call
+	Of   string
+}
+
+func unguardedDecimalDivisions(fn *ssa.Function) []divSite {
+	var out []divSite
+	if fn.Blocks == nil {
+		return nil
+	}
+	for _, c0 := range engine.Calls(fn) {
+		c, ok := c0.(*ssa.Call)
+		if !ok {
+			continue
+		}
+		o := engine.CalleeObj(&c.Call)
+		if o == nil || o.Pkg() == nil || !strings.HasSuffix(o.Pkg().Path(), "shopspring/decimal") || (o.Name() != "Div" && o.Name() != "DivRound") {
+			continue
+		}
+		args := engine.CallArgs(c)
+		if len(args) < 2 {
+			continue
+		}
+		// the run-time value behind the divisor
+		var v ssa.Value
+		if mk, isC := engine.Unwrap(args[1]).(*ssa.Call); isC {
+			if mo := engine.CalleeObj(&mk.Call); mo != nil && strings.HasPrefix(mo.Name(), "New") && len(mk.Call.Args) > 0 {
+				v = mk.Call.Args[0]
+			}
+		}
+		if v == nil {
+			v = args[1]
+		}
+		for {
+			if cv, isCv := v.(*ssa.Convert); isCv {
+				v = cv.X
+				continue
+			}
+			break
+		}
+		if _, isK := v.(*ssa.Const); isK {
+			continue
+		}
+		// `new(big.Int).SetUint64(x)` and the like: look through to x
+		base := map[ssa.Value]bool{v: true}
+		if inner, isC := v.(*ssa.Call); isC {
+			for _, a := range inner.Call.Args {
+				aa := a
+				for {
+					if cv, isCv := aa.(*ssa.Convert); isCv {
+						aa = cv.X
+						continue
+					}
+					break
+				}
+				base[aa] = true
+			}
+		}
+		g := guardsWhere(fn, func(cond ssa.Value) (bool, bool, string) {
+			cnd, neg := stripNot(cond)
+			bo, isB := cnd.(*ssa.BinOp)
+			if !isB {
+				return false, false, ""
+			}
+			for _, pr := range [][2]ssa.Value{{bo.X, bo.Y}, {bo.Y, bo.X}} {
+				k, isK := pr[1].(*ssa.Const)
+				if !isK || k.Value == nil || (k.Value.ExactString() != "0") {
+					continue
+				}
+				x := pr[0]
+				for {
+					if cv, isCv := x.(*ssa.Convert); isCv {
+						x = cv.X
+						continue
+					}
+					break
+				}
+				is := base[x]
+				if sc, isC := x.(*ssa.Call); isC && engine.CallNameIs(sc, "Sign") && len(sc.Call.Args) > 0 && base[sc.Call.Args[0]] {
+					is = true
+				}
+				if !is {
+					continue
+				}
+				nonZeroOnTrue := false
+				switch bo.Op {
+				case token.NEQ, token.GTR:
+					nonZeroOnTrue = pr[0] == bo.X || bo.Op == token.NEQ
+				case token.LSS:
+					nonZeroOnTrue = pr[0] == bo.Y // 0 < v
+				case token.EQL, token.LEQ:
+					nonZeroOnTrue = false
+				default:
+					continue
+				}
+				return true, nonZeroOnTrue != neg, "divisor != 0"
+			}
+			return false, false, ""
+		})
+		if len(g) == 0 || !engine.OnlyThroughPass(fn, c.Block(), g) {
+			out = append(out, divSite{Call: c, Of: renderVal(v, 0)})
+		}
+	}
+	return out
+}
+
+func init() {
+	if os.Getenv("VERIF_RESET_PROBE") == "" {
+		return
+	}
+	register("XDIV", func(p *engine.Prog, r *engine.Report) {
+		for _, f := range p.AllFuncs() {
+			if pk := engine.FuncPkg(f); pk == nil || !engine.IsRepoPkg(pk) || f.Synthetic != "" || f.Blocks == nil || isTestish(p.Pos(f.Pos())) {
+				continue
+			}
+			for _, d := range unguardedDecimalDivisions(f) {
+				r.Note("XDIV", engine.RelName(f), p.InstrPos(d.Call), "decimal division by "+d.Of+" without a non-zero test")
+			}
+		}
+	})
+}
